@@ -143,6 +143,51 @@ theorem remove_wf {b b' : Bal} (hb : b.WF) (h : b.remove u = some b') : b'.WF :=
     simp only [view_ws, view_keys, Bal.urls, List.length_map] at h1
     exact h1
 
+/-- the rollback of a failed add: insert then remove leaves the records, weights and stored URLs as
+    they were (the iterator is reset, the heap has grown) -/
+theorem upsert_remove_new {b : Bal} (h : b.WF) (u : URL) (w : Option Nat) (hk : u.key ∉ b.view.keys) :
+    ∃ b', (b.upsert u w).remove u = some b' ∧ b'.WF ∧ b'.urls = b.urls ∧ b'.ws = b.ws ∧
+      b'.refs = b.refs ∧ b.heap.length ≤ b'.heap.length := by
+  have hwf1 := upsert_wf h u w
+  have hv1 := upsert_view h u w
+  have hp := Pool.upsert_remove_new h.view hk w
+  rw [← hv1] at hp
+  cases hr : (b.upsert u w).remove u with
+  | none =>
+    have := remove_view (b := b.upsert u w) (b' := b.upsert u w) (u := u)
+    rw [remove_none, ← Pool.remove_none, hp] at hr
+    cases hr
+  | some b' =>
+    have hv' := remove_view hr
+    rw [hp] at hv'
+    simp only [Option.some.injEq] at hv'
+    have hws : b'.ws = b.ws := by
+      have := congrArg Pool.ws hv'; simpa using this.symm
+    -- the references: the appended one is erased again
+    have hf : b.view.find u.key = none := Pool.find_none.mpr hk
+    have hrefs1 : (b.upsert u w).refs = b.refs ++ [b.heap.length] := by unfold Bal.upsert; rw [hf]
+    have hheap1 : (b.upsert u w).heap = b.heap ++ [u] := by unfold Bal.upsert; rw [hf]
+    have hfind : (b.upsert u w).view.find u.key = some b.refs.length := by
+      rw [hv1]
+      have hn : (b.view.keys ++ [u.key]).Nodup := by
+        have := (Pool.upsert_wf h.view u.key w).nodup
+        rwa [Pool.upsert_keys, if_neg hk] at this
+      have e : b.view.upsert u.key w = ⟨b.view.keys ++ [u.key], (b.view.upsert u.key w).ws, (b.view.upsert u.key w).it⟩ := by
+        have := Pool.upsert_keys b.view u.key w
+        rw [if_neg hk] at this
+        cases hq : b.view.upsert u.key w with
+        | mk ks ws it => rw [hq] at this; simp only at this; subst this; rfl
+      rw [e, Pool.find_append_mid (done := b.view.keys) (todo := []) hn]
+      simp [view_keys, Bal.urls]
+    have hb' : b'.refs = b.refs ∧ b'.heap = b.heap ++ [u] := by
+      unfold Bal.remove at hr
+      rw [hfind] at hr
+      simp only [Option.some.injEq] at hr
+      subst hr
+      exact ⟨by simp only; rw [hrefs1]; exact Pool.eraseIdx_append_last _ _ rfl, hheap1⟩
+    refine ⟨b', rfl, remove_wf hwf1 hr, urls_heap_append h u b' hb'.1 hb'.2, hws, hb'.1, ?_⟩
+    rw [hb'.2]; simp
+
 /-! ### `NextServer` -/
 
 theorem next_lt (ws : List Nat) (s : It) {i : Nat} {s' : It} (h : next ws s = (.sel i, s')) : i < ws.length := by
